@@ -43,6 +43,8 @@
 #include <stdint.h>
 
 #define C2S_HEX_LIMIT 6000   /* longer client streams are reported by length + crc32 only */
+#define MAX_TIMEOUTS 3       /* after that many hanging cases the rest of the batch is answered `skipped` */
+static int ntimeouts = 0;
 
 static int hexval(int c)
 {
@@ -173,7 +175,15 @@ static int looks_san(const dyn_t *e)
 static void put_errtail(const dyn_t *e)
 {
     size_t n = e->n, off = 0;
-    if (n > 400) { off = n - 400; n = 400; }
+    if (e->p && n > 0) {
+        /* a sanitizer report: show its head line(s), not the legend at its end */
+        char *h;
+        e->p[n] = 0;
+        h = strstr((char *) e->p, "ERROR: ");
+        if (!h) h = strstr((char *) e->p, "runtime error");
+        if (h) { off = (size_t) (h - (char *) e->p); n -= off; if (n > 400) n = 400; }
+    }
+    if (off == 0 && n > 400) { off = n - 400; n = 400; }
     puthex(e->p ? e->p + off : (unsigned char *) "", n);
 }
 
@@ -258,6 +268,7 @@ static void op_sink(char *rest)
     char *jail = tok(&rest), *cwd = tok(&rest), *desthex = tok(&rest), *ps = tok(&rest), *ys = tok(&rest),
          *ums = tok(&rest), *fdm = tok(&rest), *shex = tok(&rest);
     if (!shex) { printf("bad-op\n"); return; }
+    if (ntimeouts >= MAX_TIMEOUTS) { printf("skipped rc=-1 sig=997 san=0 replies=- err=-\n"); return; }
     size_t dl, sl;
     char *dest = (char *) unhex(desthex, &dl);
     unsigned char *stream = unhex(shex, &sl);
@@ -288,9 +299,9 @@ static void op_sink(char *rest)
     dyn_add(&a.log, stream, sl);
     dyn_t errlog = { NULL, 0, 0 };
     dyn_add(&errlog, "", 0);
-    int to = pump(&a, &b, fdmode == 0, 0, perr[0], &errlog, 20000);
+    int to = pump(&a, &b, fdmode == 0, 0, perr[0], &errlog, 10000);
     int rc, sig;
-    if (to < 0) kill(pid, SIGKILL);
+    if (to < 0) { kill(pid, SIGKILL); ntimeouts++; }
     reap(pid, &rc, &sig);
     if (to < 0) sig = 998;
     if (fdmode == 0) close(p_w); else { close(p_r); }
@@ -308,6 +319,10 @@ static void op_rt(char *rest)
     char *jail = tok(&rest), *cwd = tok(&rest), *desthex = tok(&rest), *ps = tok(&rest), *ys = tok(&rest),
          *ums = tok(&rest), *srcdir = tok(&rest), *revs = tok(&rest), *hosthex = tok(&rest);
     if (!hosthex) { printf("bad-op\n"); return; }
+    if (ntimeouts >= MAX_TIMEOUTS) {
+        printf("skipped crc=-1 csig=997 src=-1 ssig=997 san=0 c2slen=0 c2scrc=0 c2s=- s2c=- err=-\n");
+        return;
+    }
     char *names[64];
     int nn = 0;
     char *t;
@@ -336,9 +351,9 @@ static void op_rt(char *rest)
     dir_t b = { ss[0], sc[0], { NULL, 0, 0 }, 0, 0, 0 };   /* server -> client */
     dyn_t errlog = { NULL, 0, 0 };
     dyn_add(&errlog, "", 0);
-    int to = pump(&a, &b, 1, 1, perr[0], &errlog, 30000);
+    int to = pump(&a, &b, 1, 1, perr[0], &errlog, 12000);
     int crc, csig, src, ssig;
-    if (to < 0) { kill(cpid, SIGKILL); kill(spid, SIGKILL); }
+    if (to < 0) { kill(cpid, SIGKILL); kill(spid, SIGKILL); ntimeouts++; }
     reap(cpid, &crc, &csig);
     reap(spid, &src, &ssig);
     if (to < 0) csig = ssig = 998;
